@@ -136,23 +136,22 @@ Fixpoint profiles_while (fuel : nat) (st : pst) : pst :=
     end
   else st.
 
-(* the version inside "( op version )": IDENT (COLON IDENT)* -- a version with an epoch is lexed
-   IDENT COLON IDENT, and its upstream part may contain further colons ("0:09:09-s").
+(* the version inside "( op version )": the whole run of IDENT and COLON tokens (at least one) --
+   a version with an epoch is lexed IDENT COLON IDENT, its upstream part may contain further
+   colons, and debversion also accepts empty colon-separated parts ("7:1::2", "5::", ":5").
    History in /repo: before 0eb8794 this was [expect IDENT st] ("a (>= 1:2.0)" rejected with three
-   errors); 0eb8794 accepted one COLON IDENT; c2fa7c8 made it a loop.  43dd02f added the skip_ws
-   between the version and ")". *)
-Fixpoint version_colons (fuel : nat) (st : pst) : pst :=
-  if cur_is st COLON then
+   errors); 0eb8794 accepted one COLON IDENT; c2fa7c8 (COLON IDENT)*; 4b18f7c the plain run, as
+   the lossy reader does.  43dd02f added the skip_ws between the version and ")". *)
+Definition cur_is_vtok (st : pst) : bool := cur_is st IDENT || cur_is st COLON.
+Fixpoint version_run (fuel : nat) (st : pst) : pst :=
+  if cur_is_vtok st then
     match fuel with
     | O => out_of_fuel st
-    | S f => version_colons f (expect IDENT (bump st))
+    | S f => version_run f (bump st)
     end
   else st.
 Definition version_text (st : pst) : pst :=
-  if cur_is st IDENT then
-    let st := bump st in
-    version_colons (loop_fuel st) st
-  else error st.
+  if cur_is_vtok st then version_run (loop_fuel st) st else error st.
 
 Definition parse_relation (st : pst) : pst :=
   in_node RELATION (fun st =>
